@@ -5,6 +5,7 @@ import PatVerif.Generated.FeLimbs
 import PatVerif.Generated.EdPoints
 import PatVerif.Model.Recode
 import PatVerif.Model.ScalarMultLit
+import PatVerif.Model.Clamp
 /-! Second driver (C14/C15 only): runs the *translated* limb code of `Generated/ScLimbs.lean` and `Generated/FeLimbs.lean` — the
 definitions `Proofs/Sc*.lean` and `Proofs/Fe*.lean` are about — on the scalar and field operations of the stream, so that the
 translators' reading of the Go source is itself compared with the implementation on every run. -/
@@ -119,7 +120,7 @@ def answer (line : String) : String :=
       else "-"
     | none => "-"
   -- scalar multiplications: translated decoder and `SetBytes`, literal recodings, the literal transcription of scalarmult.go / tables.go
-  -- over the translated formulas (Model/ScalarMultLit.lean), translated encoder. `clamp` (SetBytesWithClamping) is not translated.
+  -- over the translated formulas (Model/ScalarMultLit.lean), translated encoder. `clamp` goes through `Model/Clamp.lean` (three byte operations, then the translated `scReduce`).
   | ["c14.sm", op, a, A, b] =>
     match parseV a, parseV A, parseV b with
     | some a, some A, some b =>
@@ -130,6 +131,13 @@ def answer (line : String) : String :=
         | "base" =>
           match PatVerif.Model.Recode.signedRadix16 (sc a) with
           | some ds => enc (PatVerif.Model.ScalarMultLit.scalarBaseMult PatVerif.Model.ScalarMultLit.basepointTable ds)
+          | none => "panic"
+        | "clamp" =>
+          match PatVerif.Model.Clamp.setBytesWithClamping (a.map UInt8.toNat) with
+          | some out =>
+            match PatVerif.Model.Recode.signedRadix16 (out.map Int.toNat) with
+            | some ds => enc (PatVerif.Model.ScalarMultLit.scalarBaseMult PatVerif.Model.ScalarMultLit.basepointTable ds)
+            | none => "panic"
           | none => "panic"
         | "var" =>
           match Pt.decode A with
